@@ -498,10 +498,11 @@ func (v *Visitor) visit(s *df.AnalyzerState, entrypoint *df.CallNodeArg) error {
 
 			var calleeReturns map[ssa.Instruction][]*df.ReturnValNode
 			if graphNode.CalleeSummary == nil {
-				if s.IsReachableFunction(graphNode.Callee()) {
+				if s.IsReachableFunction(graphNode.Callee()) && s.IsReachableFunction(graphNode.Graph().Parent) {
 					panic(fmt.Errorf("node's callee summary is nil: %v", graphNode))
 				}
-				// The callee is not reachable, it has no summary: it is ignored, as in the taint analysis.
+				// The callee (or the function containing the call) is not reachable and the call has not been linked to
+				// a summary: it is ignored, as in the taint analysis.
 			} else {
 				calleeReturns = graphNode.CalleeSummary.Returns
 			}
@@ -727,6 +728,17 @@ func (v *Visitor) visit(s *df.AnalyzerState, entrypoint *df.CallNodeArg) error {
 			if v.SlicingSpec.SkipBoundLabels {
 				break
 			}
+			for nextNode := range graphNode.In() {
+				nextNodeWithTrace := df.NodeWithTrace{
+					Node:         nextNode,
+					Trace:        cur.Trace,
+					ClosureTrace: cur.ClosureTrace,
+				}
+				stack, _ = v.addNext(s, stack, cur, nextNodeWithTrace, cur.Status, df.EdgeInfo{}, seen)
+			}
+
+		// Data flows backwards within the function from the condition of an if statement.
+		case *df.IfNode:
 			for nextNode := range graphNode.In() {
 				nextNodeWithTrace := df.NodeWithTrace{
 					Node:         nextNode,
